@@ -58,6 +58,8 @@ class Ctx:
         self.t0 = time.time()
         self._cross_seen = set()
         self._tcp_tail = {}
+        self._last_table = None
+        self._cookies = {}
         self.crash_is_violation = prop in MUST_ANSWER
 
     # ---- driver life cycle --------------------------------------------------
@@ -79,8 +81,13 @@ class Ctx:
                            "--log-file=" + os.path.join(build.TARGET, "sanitizer", "valgrind-%p.log")]
             self.drv = Driver(self.bin, env_extra=env_extra, wrapper=wrapper)
             self.drv.cfg(self.cfg)
+            self._last_table = None
             self.stats["driver_starts"] += 1
         return self.drv
+
+    def reset_table(self):
+        self.driver().reset()
+        self._last_table = 0
 
     def close(self):
         if self.drv is not None:
@@ -95,6 +102,7 @@ class Ctx:
             self.cfg = cfg
         if reset:
             d.reset()
+            self._last_table = 0
         self.history = []
         self.record = record
 
@@ -160,6 +168,32 @@ class Ctx:
             return
         if not self.universal:
             return
+        # --- C09 (universal part): the table grows by at most one per frame, only on a PSH|ACK segment, and never shrinks
+        if self._last_table is not None and r.table != self._last_table:
+            d = r.table - self._last_table
+            isdata = False
+            if len(f) >= 54:
+                q0 = pkt.parse(f)
+                isdata = q0.get("flags") is not None and q0.flags & 0x18 == 0x18
+            if d < 0:
+                self._universal_hit("C09", "state_removed", "connection table shrank from %d to %d on one frame" % (self._last_table, r.table), f, hist_upto, r)
+            elif d > 1 or not isdata:
+                self._universal_hit("C09", "state_created", "connection table grew from %d to %d on a frame that is not a PSH|ACK segment" % (
+                    self._last_table, r.table) if not isdata else "connection table jumped from %d to %d" % (self._last_table, r.table), f, hist_upto, r)
+        self._last_table = r.table
+        # --- C06 (universal part): the cookie of a (key, 4-tuple) never changes
+        if r.kind == "R" and len(r.reply) >= 54 and len(f) >= 54:
+            a0 = pkt.parse(r.reply)
+            if a0.get("flags") == 0x12:
+                q0 = pkt.parse(f)
+                if q0.get("flags") is not None and q0.flags & 0x02 and q0.flags & 0x18 != 0x18:
+                    k = (self.cfg.key, q0.src, q0.dst, q0.sp, q0.dp)
+                    old = self._cookies.get(k)
+                    if old is not None and old != a0.seq:
+                        self._universal_hit("C06", "cookie_unstable", "SYN-ACK sequence number of one (key, 4-tuple) changed from %08x to %08x" % (old, a0.seq), f, hist_upto, r)
+                    if len(self._cookies) > 100000:
+                        self._cookies.clear()
+                    self._cookies[k] = a0.seq
         prior = b""
         if r.kind == "R" or self.cfg.logger != "n":
             # bytes delivered earlier on the same TCP flow (a STUN change-port request may span several segments)
